@@ -535,7 +535,9 @@ def signature(prog, base, obs, mc=None):
             return "site:compiler-bug:%s" % m.group(1).rstrip(". ")[:80]
         m = CFAULT.search(obs.get("raw", ""))
         if m and mc is not None:
-            return "site:compiler-fault:%s:%s" % ((m.group(1) or m.group(2)).strip()[:60], cfg_str(mc))
+            on = [a[2:] for a in mc[1:] if a.startswith("-Q") and not a.startswith("-Qno-")]
+            first = on[0] if on else mc[0]
+            return "site:compiler-fault:%s:with %s" % ((m.group(1) or m.group(2)).strip()[:60], first)
     return None
 
 
@@ -659,7 +661,8 @@ def replay(path):
         progs.append(("program " + r["path"], {"lib": r["lib"], "path": r["path"].replace("/repo/aldor", C.RB, 1)}))
     bad = 0
     for what, p in progs:
-        a, b = behave(ctx, p, r.get("base", ["-Q0"])), behave(ctx, p, r["config"])
+        a = behave(ctx, p, r.get("base", ["-Q0"]), route=r.get("route", "interp"))
+        b = behave(ctx, p, r["config"], route=r.get("route", "interp"))
         print("%s: %s -> %s %r" % (what, cfg_str(r.get("base", ["-Q0"])), a["cls"], a["out"][-300:]))
         print("%s: %s -> %s %r" % (what, cfg_str(r["config"]), b["cls"], b["out"][-300:]))
         if not same(a, b):
@@ -698,6 +701,7 @@ def differential(rep, tier, exe, G, model):
     budget_new = [4 if tier == "quick" else 30]
 
     reported = set()
+    slow_compiles = collections.Counter()
 
     def handle(prog, cfg, base, obs):
         stats["differences"] += 1
@@ -716,7 +720,7 @@ def differential(rep, tier, exe, G, model):
     rec_list = [r for rs in recs.values() for r in rs]
     for r in rec_list:          # hand-made records carry their source
         if r.get("src"):
-            cps[r["name"]] = {"name": r["name"], "lib": r["lib"], "src": r["src"], "ref": None,
+            cps[r["name"]] = {"name": r["name"], "lib": r["lib"], "src": r["src"], "ref": None, "route": r.get("route", "interp"),
                               "expect_out": r.get("expect_out"), "expect_status": r.get("expect_status")}
     jobs = []
     for r in rec_list:
@@ -725,7 +729,7 @@ def differential(rep, tier, exe, G, model):
             jobs += [(p, r.get("base", ["-Q0"])), (p, r["config"])]
     # a recorded hang is reproduced with a shorter limit (it costs the whole limit every run)
     with concurrent.futures.ThreadPoolExecutor(C.NCPU) as ex:
-        res = list(ex.map(lambda j: behave(ctx, j[0], j[1], timeout=20), jobs))
+        res = list(ex.map(lambda j: behave(ctx, j[0], j[1], route=j[0].get("route", "interp"), timeout=20), jobs))
     n_rec_repro = 0
     for i, r in enumerate([r for r in rec_list if r["name"] in cps]):
         base, obs = res[2 * i], res[2 * i + 1]
@@ -740,6 +744,7 @@ def differential(rep, tier, exe, G, model):
                          verdict(p, base, obs), ("; " + r["what"]) if r.get("what") else ""),
                       {"how_to_replay": "./check C02 --replay <this file>", "program": r["name"], "path": p.get("path"),
                        "src": p.get("src"), "lib": p["lib"], "config": r["config"], "base": r.get("base", ["-Q0"]),
+                       "route": p.get("route", "interp"),
                        "q0": {"cls": base["cls"], "rc": base["rc"], "out": base["out"][-3000:]},
                        "observed": {"cls": obs["cls"], "rc": obs["rc"], "out": obs["out"][-3000:]},
                        "verdict": verdict(p, base, obs)}, key=r["key"])
@@ -748,7 +753,7 @@ def differential(rep, tier, exe, G, model):
     stats["recorded_failures_reproduced"] = n_rec_repro
 
     # ---- 2. generated family
-    n_mini = 60 if tier == "quick" else 420
+    n_mini = 60 if tier == "quick" else 360
     sizes = [4, 8, 12, 18, 25] if tier == "quick" else [4, 8, 12, 18, 25, 35]
     mj = [(rng.randrange(1, 2 ** 40), rng.choice(sizes)) for _ in range(n_mini)]
     progs = mini.batch(["gen %d %d" % (s, z) for s, z in mj])
@@ -765,8 +770,10 @@ def differential(rep, tier, exe, G, model):
             jobs.append((p, c))
     res = run_matrix(ctx, jobs)
     base_of = {}
+    interp_of = {}
     oracle_bad = collections.Counter()
     for (p, c), b in zip(jobs, res):
+        interp_of[(id(p), cfg_str(c))] = b
         kind = "level" if len(c) == 1 else ("single" if c[0] == "-Q0" and len(c) == 2 else
                                             ("complement" if len(c) == 2 else "random"))
         cfg_kinds[kind] += 1
@@ -793,6 +800,12 @@ def differential(rep, tier, exe, G, model):
         stats["mini_pairs"] += 1
         if base["cls"] in ("compile-error", "timeout"):
             continue            # not a program of the family as far as the current compiler is concerned (C01's matter)
+        if b["cls"] == "timeout" and b.get("step") == "compile":
+            # the compile step did not finish within the limit: no behaviour to compare (slow or endless
+            # optimisation is not decided here; counted, and the recorded cases are re-run in step 1)
+            stats["compile_timeouts_not_decided"] += 1
+            slow_compiles[cfg_str(c)] += 1
+            continue
         # one report per program and per distinct wrong behaviour
         if c != ["-Q0"] and not same(b, base) and (id(p), b["cls"], b["out"]) not in done:
             done.add((id(p), b["cls"], b["out"]))
@@ -827,6 +840,11 @@ def differential(rep, tier, exe, G, model):
         cfg_kinds[kind] += 1
         if same(b, base) or (p["name"], b["cls"], b["out"]) in done:
             continue
+        if b["cls"] == "timeout" and b.get("step") == "compile":
+            if not any(r.get("_obs", {}).get("cls") == "timeout" for r in recs.get(p["name"], [])):
+                stats["compile_timeouts_not_decided"] += 1
+                slow_compiles["%s %s" % (p["name"], cfg_str(c))] += 1
+            continue            # no behaviour to compare (see above)
         if b["cls"] == "timeout" and base["t"] > T_RUN / 40:
             continue            # slow program, not a hang
         # confirm once (a loaded machine must not produce a finding)
@@ -848,18 +866,43 @@ def differential(rep, tier, exe, G, model):
         for (p, c), b in zip(jobs, res):
             if c == ["-Q0"]:
                 base_c[id(p)] = b
+        c_reported = set()
         for (p, c), b in zip(jobs, res):
             stats["c_route_pairs"] += 1
             base = base_c[id(p)]
-            if base["cls"] == "compile-error":
+            if base["cls"] in ("compile-error", "timeout") or c == ["-Q0"] or same(b, base):
                 continue
-            if c != ["-Q0"] and not same(b, base):
-                stats["differences"] += 1
-                rep.violation("generated program behaves differently at `%s` than at -Q0 through the C executable (%s -> %s)"
-                              % (cfg_str(c), base["cls"], b["cls"]),
-                              {"route": "c", "src": p["src"], "seed": p["seed"], "size": p["size"], "config": c, "lib": "aldor",
-                               "q0": base, "observed": b, "expected": p["expect_out"]},
-                              key="mini-c:%s:%s" % (hashlib.sha1(p["src"].encode()).hexdigest()[:8], cfg_str(c)))
+            ib, ibase = interp_of.get((id(p), cfg_str(c))), base_of.get(id(p))
+            if b["cls"] in ("compile-error", "timeout") and ib is not None and ib["cls"] in ("compile-error", "timeout"):
+                stats["c_route_same_as_interp"] += 1        # the compile step is the same on both routes: handled above
+                continue
+            if ib is not None and ibase is not None and not same(ib, ibase):
+                stats["c_route_same_as_interp"] += 1        # this (program, configuration) already differs on the interpreter route
+                continue
+            if id(p) in c_reported:
+                continue
+            c_reported.add(id(p))
+            stats["differences"] += 1
+            # does the difference need the C compiler's own optimiser (-Qcc)?  then it is the class recorded as
+            # corpus:hand-c-executable-inline-cc (the C generated from optimised FOAM is miscompiled by cc -O)
+            nocc = behave(ctx, p, list(c) + ["-Qno-cc"], route="c")
+            if same(nocc, base):
+                k = "site:c-executable:difference needs -Qcc"
+                seen_keys[k] += 1
+                if k not in reported:
+                    reported.add(k)
+                    rep.violation("generated program behaves differently at `%s` than at -Q0 through the C executable only, and only "
+                                  "when the C compiler optimises (-Qcc); the interpreter agrees with -Q0 and the oracle"
+                                  % cfg_str(c),
+                                  {"route": "c", "src": p["src"], "seed": p["seed"], "size": p["size"], "config": c, "lib": "aldor",
+                                   "q0": tail(base), "observed": tail(b), "with_no_cc": tail(nocc), "expected": p["expect_out"]},
+                                  key=k)
+                continue
+            rep.violation("generated program behaves differently at `%s` than at -Q0 through the C executable only (%s -> %s; the "
+                          "interpreter route agrees with -Q0)" % (cfg_str(c), base["cls"], b["cls"]),
+                          {"route": "c", "src": p["src"], "seed": p["seed"], "size": p["size"], "config": c, "lib": "aldor",
+                           "q0": tail(base), "observed": tail(b), "expected": p["expect_out"]},
+                          key="mini-c:%s:%s" % (hashlib.sha1(p["src"].encode()).hexdigest()[:8], cfg_str(c)))
 
     if OVERFLOW:
         rep.violation("%d more (program, behaviour) pairs differ from -Q0 (not minimised: the %d minimised reports of this run "
@@ -878,6 +921,8 @@ def differential(rep, tier, exe, G, model):
                                     "recorded_failures_run": stats["recorded_failures_run"],
                                     "recorded_failures_reproduced": stats["recorded_failures_reproduced"]},
                 differences=stats["differences"], keys_seen=dict(seen_keys), flaky=stats["flaky"],
+                compile_timeouts_not_decided=stats["compile_timeouts_not_decided"],
+                compile_timeouts_where=dict(slow_compiles.most_common(40)),
                 runs_differing_from_oracle_by_config=dict(oracle_bad),
                 seconds={"generated": round(t_mini, 1), "corpus": round(t_corpus, 1)},
                 samples=[{"seed": p["seed"], "size": p["size"], "nodes": p["nodes"]} for p in progs[:6]])
@@ -889,6 +934,14 @@ LOCAL_CFGS = [["-Q0", "-Qcfold"], ["-Q0", "-Qpeep"], ["-Q0", "-Qcfold", "-Qpeep"
               ["-Q0", "-Qffold", "-Qpeep"]]
 # an operand exchange the model calls unsafe (cannot happen with the guards of the current source:
 # theorem C02_peep_flag); kept so that a weakened guard is named in the report
+# configurations at which the builtin-level programs are only RUN (the passes that work on definitions).
+# None of them inlines: with `inline` on, the printing functions imp/impb are inlined and the known inliner
+# defect (operands evaluated in another order, corpus:hand-inline-operand-order) changes the order of the
+# printed lines of most of these programs - the inliner is exercised by the MiniAldor and corpus parts.
+LOCAL_BEHAVIOUR_CFGS = [["-Q1"], ["-Q0", "-Qdeadvar"], ["-Q0", "-Qdassign"], ["-Q0", "-Qcprop"], ["-Q0", "-Qcse"],
+                        ["-Q0", "-Qflow"], ["-Q0", "-Qhfold"], ["-Q0", "-Qemerge", "-Qenv"],
+                        ["-Q0", "-Qdeadvar", "-Qdassign", "-Qcprop", "-Qcse", "-Qflow", "-Qcfold", "-Qpeep"],
+                        ["-Q2", "-Qno-inline"], ["-Q3", "-Qno-inline", "-Qno-inline-all"]]
 SWAP_KEYS = {"SIntPlus": "peep:additive-operand-order", "SIntMinus": "peep:additive-operand-order",
              "BoolNot": "peep:negate-operand-order"}
 
@@ -906,6 +959,26 @@ def segments(out):
     return [(a, b) for a, b in segs]
 
 
+def behaviour_diff(outs, c, swaps):
+    k = cfg_str(c)
+    if k not in outs or outs[k] == outs["-Q0"]:
+        return []
+    sa, sb = segments(outs["-Q0"][1]), segments(outs[k][1])
+    bad = []
+    for i, (a, b) in enumerate(zip(sa, sb)):
+        if a != b and a[0] not in [x[0] for x in bad]:
+            bad.append((a[0], a[1], b[1]))
+    if len(sa) != len(sb) or outs[k][0] != outs["-Q0"][0]:
+        if not bad:
+            bad.append((sa[min(len(sa), len(sb)) - 1][0] if sa and sb else "head", outs["-Q0"][1][-300:], outs[k][1][-300:]))
+    res = []
+    for fn, qa, qb in bad:
+        kinds = sorted({SWAP_KEYS.get(root, "peep:other-operand-order") for root, _ in swaps.get(fn, [])})
+        res.append({"config": c, "function": fn, "explained_by": kinds, "q0": qa[:400], "observed": qb[:400],
+                    "status": [outs["-Q0"][0], outs[k][0]]})
+    return res
+
+
 def check_local(rep, exe, model, tier):
     """Tie (b) and, on the same programs, the property itself for the two local passes."""
     rng = C.rng("c02-local")
@@ -916,7 +989,7 @@ def check_local(rep, exe, model, tier):
         fb = FallbackModel({})
         states = [st if st is not None else fo for st, fo in zip(states, fb.query(LOCAL_CFGS))]
         states = [st if st is not None else {"tbl": [("cfold", "0"), ("ffold", "0")], "trace": []} for st in states]
-    nprog = 24 if tier == "quick" else 240
+    nprog = 24 if tier == "quick" else 200
     progs = [LOC.gen_program(rng, 8, rng.choice([2, 3, 3, 4])) for _ in range(nprog)]
     base = C.scratch("c02loc")
     stats = collections.Counter()
@@ -930,14 +1003,18 @@ def check_local(rep, exe, model, tier):
             f.write(src)
         res = {"i": i, "mismatch": [], "behaviour": [], "changed": 0, "fragments": 0, "swaps": collections.Counter()}
         units, outs = {}, {}
-        for c in [["-Q0"]] + LOCAL_CFGS:
+        for c in [["-Q0"]] + LOCAL_CFGS + LOCAL_BEHAVIOUR_CFGS:
             k = cfg_str(c)
             rc, out, err = C.run(C.aldor_base_args(exe) + c + ["-Ffm=p.fm", "-Fao=p.ao", "p.as"], cwd=d, env=C.aldor_env(),
                                  timeout=T_RUN, input="")
             if rc != 0 or not os.path.exists(d + "/p.fm"):
+                if c in LOCAL_BEHAVIOUR_CFGS:
+                    outs[k] = ("compile-error", canon(out)[-300:])
+                    continue
                 res["compile_error"] = (k, out[-500:])
                 return res
-            units[k] = LOC.Unit(open(d + "/p.fm", errors="replace").read())
+            if c not in LOCAL_BEHAVIOUR_CFGS:
+                units[k] = LOC.Unit(open(d + "/p.fm", errors="replace").read())
             rc, out, err = C.run(C.aldor_base_args(exe) + ["-laldor", "-ginterp", "p.ao"], cwd=d, env=C.aldor_env(),
                                  timeout=T_RUN, input="")
             outs[k] = ("ok" if rc == 0 else "fail", "\n".join(l for l in canon(out).splitlines() if "will now be out of date" not in l))
@@ -959,14 +1036,9 @@ def check_local(rep, exe, model, tier):
                     for root, txt in swaps.get(n, []):
                         res["swaps"][SWAP_KEYS.get(root, "peep:other-operand-order")] += 1
                 # behaviour
-                if outs[k] != outs["-Q0"]:
-                    sa, sb = segments(outs["-Q0"][1]), segments(outs[k][1])
-                    bad = sorted({a[0] for a, b in zip(sa, sb) if a != b} | ({"length"} if len(sa) != len(sb) else set()))
-                    for fn in bad:
-                        kinds = sorted({SWAP_KEYS.get(root, "peep:other-operand-order") for root, _ in swaps.get(fn, [])})
-                        res["behaviour"].append({"config": c, "function": fn, "explained_by": kinds,
-                                                 "q0": next((a[1] for a in sa if a[0] == fn), "")[:400],
-                                                 "observed": next((b[1] for b in sb if b[0] == fn), "")[:400]})
+                res["behaviour"] += behaviour_diff(outs, c, swaps)
+            for c in LOCAL_BEHAVIOUR_CFGS:
+                res["behaviour"] += behaviour_diff(outs, c, {})
             res["fragments"] = m.calls
         finally:
             m.close()
@@ -989,6 +1061,7 @@ def check_local(rep, exe, model, tier):
             beh.append((r["i"], x))
     # the property itself on these programs
     reported = set()
+    n_unexplained, more_unexplained = 0, []
     for i, x in beh:
         src = progs[i][0]
         fn_src = next((l for l in src.splitlines() if l.startswith(x["function"] + "(")), "")
@@ -1009,6 +1082,10 @@ def check_local(rep, exe, model, tier):
             if h in reported:
                 continue
             reported.add(h)
+            n_unexplained += 1
+            if n_unexplained > 3:
+                more_unexplained.append({"function": fn_src, "config": x["config"], "q0_lines": x["q0"], "observed_lines": x["observed"]})
+                continue
             key = "local:%s:%s" % (h, cfg_str(x["config"]))
             # minimal program: the header, the two printing functions, this function and its calls
             fn = x["function"]
@@ -1025,6 +1102,9 @@ def check_local(rep, exe, model, tier):
                            "function": fn_src, "q0_lines": x["q0"], "observed_lines": x["observed"],
                            "minimal_program": {"src": small, "still_differs": not same(a, b),
                                                "q0": a["out"][-400:], "observed": b["out"][-400:]}}, key=key)
+    if more_unexplained:
+        rep.violation("%d more generated builtin-level functions print differently at some setting than at -Q0 (the first 3 "
+                      "are reported with their minimal program)" % len(more_unexplained), {"examples": more_unexplained[:10]})
     if mism:
         i, x = mism[0]
         rep.violation("correspondence Fold/Peep model vs the isolated pass no longer checks: function %s at `%s` (%d functions differ)"
